@@ -40,6 +40,7 @@ MIN_COUNTERS = {
     "text_runs_dict_off": {"quick": 50000, "thorough": 600000},
     "text_runs_dict_on": {"quick": 10000, "thorough": 140000},
     "compression_on_then_off_histories": {"quick": 6000, "thorough": 60000},
+    "quote_under_flag_runs": {"quick": 10000, "thorough": 100000},
 }
 UNIT_TIMEOUT = 900
 
@@ -163,6 +164,34 @@ def check_string(acc, s):
             pass
         except Exception:  # noqa
             pass
+    # --- q under interpreter flags that concern *printing* (P: python-style lists, ḋ: decimals,
+    # t: truthy lists): the quote element's output must not depend on them
+    if sum(map(ord, s)) % 5 == 1:
+        for flag, attr, val in (("P", "vyxal_lists", False), ("ḋ", "print_decimals", True), ("t", "truthy_lists", True)):
+            try:
+                with watchdog(WATCHDOG_S):
+                    cx = env.new_ctx()
+                    if not hasattr(cx, attr):
+                        continue
+                    setattr(cx, attr, val)
+                    rq = env.run_text("q", stack=[s], ctx=cx)
+                    if rq.error is not None or len(rq.stack) != 1 or not isinstance(rq.stack[-1], str):
+                        acc.res["evals"] += 1
+                        acc.violation("quote-element-failed-under-flag-" + flag, s, "q", False, "q", str(rq.error)[:150])
+                        continue
+                    cy = env.new_ctx()
+                    setattr(cy, attr, val)
+                    r2 = env.run_text(rq.stack[-1], dict_compress=False, ctx=cy)
+                    acc.res["evals"] += 1
+                    acc.bump("quote_under_flag_runs")
+                    from lib.values import canon as _canon
+
+                    got2 = None if r2.error is not None else _canon(r2.stack, limit=50)
+                    if got2 != [s]:
+                        acc.violation("quote-roundtrip-under-flag-" + flag, s, "q", False, rq.stack[-1],
+                                      (str(r2.error) if r2.error is not None else repr(got2))[:200])
+            except Watchdog:
+                pass
     # --- via the element q ------------------------------------------------
     try:
         with watchdog(WATCHDOG_S):
